@@ -10,7 +10,11 @@ META = dict(
                 "byte-value class ('/', 0x00, 0xff, \"/ipns/\", other) of the first / last key bytes], 6 rejected forms) is executed on the real "
                 "path.NewPath / NewPathFromURI / StringToSegments / ipns.Name code and compared; long random sequences recorded "
                 "from the code are validated by TracePathSyntax, which also re-derives byte for byte RoutingKey() and NameFromRoutingKey on 9 "
-                "byte strings derived from the concrete multihash of every key class."),
+                "byte strings derived from the concrete multihash of every key class. Paths and names are VALUES: value sessions "
+                "(spec: SStep) call the accessors / derivations of a path (80 accepted paths x call sequences up to 3/4) and of a name and "
+                "Scribble(i) over the slices the calls leave with the caller (results of Segments / RoutingKey / MarshalJSON, argument buffers "
+                "of Join / NewPathFromSegments / NameFromRoutingKey / UnmarshalJSON); Scribble is a no-op of the model, and after every step "
+                "the real value is re-observed through every handle (original, copies, wrappers), every derived value and every untouched slice."),
     level_note=("Trusted: go-cid / go-multibase / go-libp2p peer decoding; harness token table (self-checked: each token decodes "
                 "or fails to decode as the spec's CidOf says). Strings are restricted to the token alphabet joined by '/'."),
     technique="TLA+ rule + exhaustive class-product enumeration by TLC replayed into the code; recorded parser calls validated by a trace spec",
@@ -48,8 +52,9 @@ def run(ctx):
                         "chosen ed25519 key bytes, sha2-256 digests by search, raw multihashes with hash code 0x2f); one-byte varint framing only"]
     ctx.cov["rule"] = ("G: every state of PathSyntax (cases grown token by token, BFS-exhaustive up to the bound) = one call "
                        "battery on the real code: NewPath, re-parse of String(), Segments, Namespace, Mutable, RootCid, "
-                       "NewImmutablePath, NewPathFromSegments, StringToSegments, NewPathFromURI, name conversions. "
-                       "non-trivial = accepted path whose cleaned segments differ from the raw tokens, or a name path of length >= 2")
+                       "NewImmutablePath, NewPathFromSegments, StringToSegments, NewPathFromURI, name conversions; value sessions = call sequence "
+                       "incl. Scribble steps with re-observation of all handles after each step. "
+                       "non-trivial = accepted path whose cleaned segments differ from the raw tokens, a name path of length >= 2, or a session with a call after a Scribble")
     q = ctx.quick
     import concurrent.futures as cf, time as _t
     ctx.specdir("PathSyntax")
@@ -68,11 +73,18 @@ def run(ctx):
     def nontrivial(c):
         if c["k"] in ("p", "u"):
             return c["p"]["ok"] and ["e"] + c["p"]["segs"] != c["t"][:len(c["p"]["segs"]) + 1]
+        if c["k"] in ("v", "w"):        # a session in which something was scribbled on and a call followed
+            sc = [i for i, o in enumerate(c["ops"]) if o["op"] == "Scribble"]
+            return bool(sc) and sc[0] < len(c["ops"]) - 1
         return c["k"] == "n" and len(c["es"]) >= 2
     if replay(ctx, binp, cases, nontrivial) is None:
         return
     acc = sum(1 for c in cases if c["k"] in ("p", "u") and c["p"]["ok"])
-    ctx.log("cases=%d accepted paths=%d names=%d" % (len(cases), acc, sum(1 for c in cases if c["k"] == "n")))
+    nsess = sum(1 for c in cases if c["k"] in ("v", "w") and any(o["op"] == "Scribble" for o in c["ops"]))
+    ctx.log("cases=%d accepted paths=%d names=%d value sessions with Scribble=%d" %
+            (len(cases), acc, sum(1 for c in cases if c["k"] == "n"), nsess))
+    if nsess < 100:
+        ctx.broken("value-session family is vacuous: only %d sessions with a Scribble step" % nsess)
     if acc < 50:
         ctx.broken("enumeration is vacuous: only %d accepted paths" % acc)
     ctx.cov["exhaustive"] = True
@@ -93,6 +105,15 @@ def run(ctx):
             return
 
     def corrupt(rs):
+        if ctx.seed % 3 == 0:               # control on the value sessions: a step right after a Scribble reports a changed value
+            vi = [i for i, r in enumerate(rs) if r["ev"] == "VCall" and i > 0 and rs[i - 1].get("op") == "Scribble" and r["vals"]]
+            if vi:
+                i = vi[len(vi) // 2]
+                bad = [dict(r) for r in rs]
+                v = dict(bad[i]["vals"][0])
+                v["segs"] = ["dd"] + v["segs"][1:]   # as if the scribbled slice were the path's own
+                bad[i]["vals"] = [v] + bad[i]["vals"][1:]
+                return bad, i
         if ctx.seed % 2 == 0:               # even seeds: the control is on the binary name events instead
             nk = [i for i, r in enumerate(rs) if r["ev"] == "NameRK" and r["v"] == "exact" and r["r"]["ok"]]
             if nk:
